@@ -4,6 +4,7 @@ import (
 	"context"
 	"fmt"
 	lifecycle "github.com/boz/go-lifecycle"
+	"github.com/ovrclk/akash/util/veriftrace"
 	dtypes "github.com/ovrclk/akash/x/deployment/types"
 	"github.com/pkg/errors"
 	"strings"
@@ -152,6 +153,7 @@ func (hs *hostnameService) isHostnameBlocked(hostname string) error {
 }
 
 func (hs *hostnameService) doRequest(rr reserveRequest) {
+	veriftrace.Gate("cluster-hostnames/" + rr.dID.String())
 	// check if hostname is blocked
 	for _, hostname := range rr.hostnames {
 		blockedErr := hs.isHostnameBlocked(hostname)
